@@ -1,6 +1,6 @@
 use alloc::vec::Vec;
 
-use hashbrown::HashMap;
+use hashbrown::{HashMap, HashSet};
 use p3_field::Field;
 
 use super::analysis::AluKey;
@@ -14,6 +14,8 @@ use crate::types::WitnessId;
 pub(super) struct Deduplicator {
     rewrite: HashMap<WitnessId, WitnessId>,
     seen: HashMap<AluKey, WitnessId>,
+    /// Witness slots already written by an op kept so far.
+    written: HashSet<WitnessId>,
 }
 
 impl Deduplicator {
@@ -21,6 +23,7 @@ impl Deduplicator {
         Self {
             rewrite: HashMap::new(),
             seen: HashMap::new(),
+            written: HashSet::new(),
         }
     }
 
@@ -36,16 +39,42 @@ impl Deduplicator {
 
             if let Some((dup_out, canonical)) = self.detect_duplicate(&op) {
                 let root = canonical.resolve(&self.rewrite);
-                if dup_out != root {
-                    self.rewrite.insert(dup_out, root);
+                if dup_out == root {
+                    continue;
                 }
-                continue;
+                // A duplicate can only be dropped when nothing else writes its output slot.
+                // Otherwise (slot aliased to a public input, a constant, a hint/NPO output or
+                // another ALU result through `connect`) the op is the equality constraint
+                // between the two writers and must stay in the op list.
+                if !self.written.contains(&dup_out) {
+                    self.rewrite.insert(dup_out, root);
+                    continue;
+                }
             }
 
+            self.record_writes(&op);
             result.push(op);
         }
 
         (result, self.rewrite)
+    }
+
+    /// Records every witness slot `op` may write (for ALU ops, `b` is the slot solved for
+    /// when the op runs backwards).
+    fn record_writes<F: Field>(&mut self, op: &Op<F>) {
+        match op {
+            Op::Const { out, .. } | Op::Public { out, .. } => {
+                self.written.insert(*out);
+            }
+            Op::Alu { b, out, .. } => {
+                self.written.insert(*b);
+                self.written.insert(*out);
+            }
+            Op::Hint { outputs, .. } => self.written.extend(outputs.iter().copied()),
+            Op::NonPrimitiveOpWithExecutor { outputs, .. } => {
+                self.written.extend(outputs.iter().flatten().copied());
+            }
+        }
     }
 
     /// Returns `Some((duplicate_out, canonical_out))` when `op` duplicates an earlier ALU.
